@@ -1,3 +1,9 @@
--- stub: replaced by the property author
+import SupervisorModel.Model.Auth
+set_option linter.unusedSimpArgs false
 namespace Sv.Props.C17
+open Sv Sv.Auth Sv.Gen.Auth
+
+/-- every handler installed on a server is wrapped in `supervisor_auth_handler` when a username is set -/
+theorem all_handlers_wrapped : ∀ h ∈ installed, h ∈ wrapped_when_auth := by decide
+
 end Sv.Props.C17
